@@ -57,12 +57,21 @@ func (l *lineage) counters() [2]int {
 	return [2]int{int(a), int(b)}
 }
 
+// genesisOK: can the genome be expressed?  Asked of a DUPLICATE: Genesis writes into the genome it expresses (the phenotype
+// pointer and every node's analogue), and an observation must not refresh what a later operator of the history reads.
 func genesisOK(g *genetics.Genome) bool {
 	ok := false
 	if p := vhu.Guard(func() {
-		old := g.Phenotype
-		_, err := g.Genesis(g.Id)
-		g.Phenotype = old
+		c, err := g.VerifDuplicate(g.Id)
+		if err != nil || c == nil {
+			// a genome that cannot be duplicated (dangling references) is judged on itself
+			old := g.Phenotype
+			_, err = g.Genesis(g.Id)
+			g.Phenotype = old
+			ok = err == nil
+			return
+		}
+		_, err = c.Genesis(g.Id)
 		ok = err == nil
 	}); p != "" {
 		return false
